@@ -934,9 +934,11 @@ func checkParserLines(p *Prog, l *Ledger) {
 	n := 0
 	kinds := map[string]bool{}
 	for _, fn := range p.ModuleFuncs() {
-		if fn.Package() == nil || fn.Package().Pkg.Name() != "parser" {
+		// the parser's own functions, and node-building helpers that package ast offers to it
+		if fn.Package() == nil || (fn.Package().Pkg.Name() != "parser" && fn.Package().Pkg.Name() != "ast") {
 			continue
 		}
+		fn := fn
 		instrsOf(fn, func(in ssa.Instruction) {
 			st, ok := in.(*ssa.Store)
 			if !ok {
@@ -954,6 +956,38 @@ func checkParserLines(p *Prog, l *Ledger) {
 			kinds[tn] = true
 			key := p.FuncKey(fn) + "#" + tn + ".Line"
 			d := describe(st.Val)
+			if prm, isParam := st.Val.(*ssa.Parameter); isParam && p.OnlyCalled(fn) {
+				// the line is handed in: what every caller hands in decides
+				idx := -1
+				for i, q := range fn.Params {
+					if q == prm {
+						idx = i
+					}
+				}
+				css := p.CallSites(fn)
+				var ds []string
+				for _, cs := range css {
+					c := cs.Common()
+					j := idx
+					if c.IsInvoke() {
+						j--
+					}
+					if j < 0 || j >= len(c.Args) {
+						ds = append(ds, "?")
+						continue
+					}
+					ds = append(ds, describe(c.Args[j]))
+				}
+				sort.Strings(ds)
+				if len(ds) > 0 {
+					d = ds[0]
+					for _, x := range ds {
+						if !strings.HasSuffix(x, ".Line") {
+							d = x
+						}
+					}
+				}
+			}
 			if strings.HasSuffix(d, ".Line") {
 				l.Discharge("C06/S4-parser-line", key, p.InstrPos(in), "Line := "+d, true)
 			} else {
